@@ -21,3 +21,4 @@ import Signac.Properties.C09
 import Signac.Properties.C16
 import Signac.Properties.C05
 import Signac.Properties.C12
+import Signac.Properties.C02
